@@ -125,28 +125,25 @@ func runC04(c *Ctx) {
 		{"regroup", []string{"bin<==>(ext#1(call<repo/pkg/bech32/internal/base32.Decode>(_, slice(" + data + ", 0, bin<->(len(" + data + "), 6)))), nil)"},
 			[]string{"bin<!=>(ext#1(call<repo/pkg/bech32/internal/base32.Decode>(_, slice(" + data + ", 0, bin<->(len(" + data + "), 6)))), nil)"}},
 	}
-	var rejectEdges []ana.Edge
-	var succ []ana.Exit
-	var errs []ana.Exit
-	for _, e := range ana.Exits(fn) {
-		if e.Panic {
-			r.Viol("C04.no-panic.explicit", c.ipos(e.Instr), "explicit panic in Decode")
+	var rejectPats []string
+	var succ, errs []vexit
+	for _, v := range c.vexits(b) {
+		if v.Panic {
+			r.Viol("C04.no-panic.explicit", c.vpos(v), "explicit panic in Decode")
 			continue
 		}
-		if b.Of(e.Results[2], e.Instr).Is("nil") {
-			succ = append(succ, e)
+		if v.Results[2].Is("nil") {
+			succ = append(succ, v)
 		} else {
-			errs = append(errs, e)
+			errs = append(errs, v)
 		}
 	}
 	r.Floor("C04.floor.success", len(succ), 1, "success returns")
 	r.Floor("C04.floor.errors", len(errs), 9, "error returns")
 	for _, g := range gates {
-		acc := plainEdges(edgesMatching(b, g.accept...))
-		rej := plainEdges(edgesMatching(b, g.reject...))
-		rejectEdges = append(rejectEdges, rej...)
-		for _, e := range succ {
-			r.Check(len(acc) > 0 && mustPass(fn, e.Instr.Block(), acc), "C04.exits.gate."+g.name, c.ipos(e.Instr), "success return passes the %s gate (%d edge(s) found)", g.name, len(acc))
+		rejectPats = append(rejectPats, g.reject...)
+		for _, v := range succ {
+			r.Check(c.vpasses(v, g.accept...), "C04.exits.gate."+g.name, c.vpos(v), "success return passes the %s gate (in Decode or through the helper that validates it)", g.name)
 		}
 	}
 	// loops: whole-string ASCII guard and HRP rune validation
@@ -188,34 +185,34 @@ func runC04(c *Ctx) {
 			}
 		}
 	}
-	for _, e := range succ {
-		r.Check(asciiLoop != nil && mustPass(fn, e.Instr.Block(), []ana.Edge{{From: asciiLoop.Header, To: asciiLoop.Exit}}), "C04.exits.gate.all-bytes-ascii", c.ipos(e.Instr), "success return follows a loop over the whole string that continues only for bytes < 0x80")
-		r.Check(hrpLoop != nil && mustPass(fn, e.Instr.Block(), []ana.Edge{{From: hrpLoop.Header, To: hrpLoop.Exit}}), "C04.exits.gate.hrp-chars", c.ipos(e.Instr), "success return follows a loop over s[:hrpLen] that continues only for valid HRP runes")
+	for _, v := range succ {
+		blk := v.top().Blk
+		r.Check(asciiLoop != nil && mustPass(fn, blk, []ana.Edge{{From: asciiLoop.Header, To: asciiLoop.Exit}}), "C04.exits.gate.all-bytes-ascii", c.vpos(v), "success return follows a loop over the whole string that continues only for bytes < 0x80")
+		r.Check(hrpLoop != nil && mustPass(fn, blk, []ana.Edge{{From: hrpLoop.Header, To: hrpLoop.Exit}}), "C04.exits.gate.hrp-chars", c.vpos(v), "success return follows a loop over s[:hrpLen] that continues only for valid HRP runes")
 	}
 	// reject-closed
-	rejectEdges = append(rejectEdges, plainEdges(edgesMatching(b,
+	rejectPats = append(rejectPats,
 		"bin<>=>(index(p0, ind<+1>(0)), 128)", "bin<>>(index(p0, ind<+1>(0)), 127)",
-		"un<!>(call<*>(ext#2(next(range(slice(p0, 0, "+hl+"))))))"))...)
-	avoid := ana.ReachableAvoiding(fn, rejectEdges)
-	for _, e := range errs {
-		r.Check(!avoid[e.Instr.Block()], "C04.exits.reject-closed", c.ipos(e.Instr), "error return reachable only through a listed reject reason (%d reject edges)", len(rejectEdges))
+		"un<!>(call<*>(ext#2(next(range(slice(p0, 0, "+hl+"))))))")
+	for _, v := range errs {
+		r.Check(c.vrejectClosed(v, rejectPats...), "C04.exits.reject-closed", c.vpos(v), "error return reachable only through a listed reject reason")
 	}
 	// returned values
-	for _, e := range succ {
-		hrpT := b.Of(e.Results[0], e.Instr)
+	for _, v := range succ {
+		hrpT := v.Results[0]
 		_, ok := ana.Match("slice("+lower+", 0, "+hl+")", hrpT)
-		r.Check(ok, "C04.exits.returned-hrp", c.ipos(e.Instr), "returned prefix = ToLower(s)[:hrpLen]: %s", short(hrpT.String(), 150))
-		dt := b.Of(e.Results[1], e.Instr)
+		r.Check(ok, "C04.exits.returned-hrp", c.vpos(v), "returned prefix = ToLower(s)[:hrpLen]: %s", short(hrpT.String(), 150))
+		dt := v.Results[1]
 		pat := "obj(makeslice<[]byte>(call<repo/pkg/bech32/internal/base32.DecodedLen>(len($d)), _), call<repo/pkg/bech32/internal/base32.Decode>(self, $d))"
 		bd, ok := ana.Match(pat, dt)
 		okD := false
 		if ok {
 			_, okD = ana.Match("slice("+data+", 0, bin<->(len("+data+"), 6))", bd["$d"])
 		}
-		r.Check(ok && okD, "C04.exits.returned-bytes", c.ipos(e.Instr), "returned bytes = buffer of DecodedLen(len(d)) filled by base32.Decode(buf, d), d = decoded symbols without the last six: %s", short(dt.String(), 260))
+		r.Check(ok && okD, "C04.exits.returned-bytes", c.vpos(v), "returned bytes = buffer of DecodedLen(len(d)) filled by base32.Decode(buf, d), d = decoded symbols without the last six: %s", short(dt.String(), 260))
 	}
-	for _, e := range errs {
-		r.Check(b.Of(e.Results[0], e.Instr).String() == `""` && b.Of(e.Results[1], e.Instr).Is("nil"), "C04.exits.error-no-data", c.ipos(e.Instr), "error return carries no prefix and no data")
+	for _, v := range errs {
+		r.Check(v.Results[0].String() == `""` && v.Results[1].Is("nil"), "C04.exits.error-no-data", c.vpos(v), "error return carries no prefix and no data")
 	}
 
 	// ---------- checksum verification routine is exactly polymod(expand(hrp) ‖ data) == 1 (shared with C16)
